@@ -405,7 +405,8 @@ def check_scheduler(ctx: Ctx) -> None:
            construct=construct(cs, 'formula:len(running) < limit'))
     spawn = repo.fn('aiotasks.Scheduler.spawn')
     ctx.analysed(spawn)
-    queued = [c for c in calls_in(spawn.node) if method_call(c, 'put') is not None and (dotted(method_call(c, 'put')) or '').endswith('_pending_coros')]
+    queued = [c for c in calls_in(spawn.node) if (method_call(c, 'put') or method_call(c, 'put_nowait')) is not None
+              and (dotted(method_call(c, 'put') or method_call(c, 'put_nowait')) or '').endswith('_pending_coros')]
     ctx.ob('R1.9', 'scheduler: spawn() queues the coroutine (pending coroutines wait for capacity, never dropped)', bool(queued), loc=spawn.loc(),
            construct=construct(spawn, 'flow:pending put'))
     pend = [c for f2 in repo.functions_in('aiotasks') for c in calls_in(f2.node)
